@@ -49,6 +49,8 @@ def family_F():
                     'unique titles at depth 2 next to a same-named section at depth 1 that allows duplicates'))
     F.append(Schema('F21', [Opt('sec', 'm', 'M', sub=[Opt('int', 'd', 'D', 5), Opt('int', 'dl', 'LDX', [b'1']), Opt('int', 'l', 'L', [b'1', b'2'])]),
                             Opt('int', 'dd', 'DX', 5)], 'deprecated / drop options and list defaults inside a multi section'))
+    F.append(Schema('F22', [Opt('sec', 'ns', 'N', sub=[Opt('int', 'x', '', 1), Opt('int', 'l', 'L', [b'1', b'2'])]), Opt('int', 'i', '', 5)],
+                    'a single section declared NODEFAULT: absent until mentioned, then merged like any single section'))
     return F
 
 
@@ -69,7 +71,7 @@ def family_one_option():
                     n += 1
                     out.append(Schema('O%02d' % n, [Opt(kind, 'o', fl, d), Opt('int', 'z', '', 3)],
                                       'one option: %s %s default=%s %s' % (kind, 'list' if lst else 'scalar', dmode, dep or 'plain')))
-    for form in ('', 'M', 'MT', 'MTU', 'K'):
+    for form in ('', 'M', 'MT', 'MTU', 'K', 'N', 'MN'):
         for child in (Opt('int', 'x', '', 1), Opt('str', 'xl', 'L', [b'a'])):
             n += 1
             out.append(Schema('O%02d' % n, [Opt('sec', 'o', form, sub=[child]), Opt('int', 'z', '', 3)],
